@@ -10,6 +10,7 @@ import (
 	"encoding/base64"
 	"encoding/binary"
 	"encoding/json"
+	"fmt"
 	"math/rand"
 	"os"
 	"sync"
@@ -226,7 +227,7 @@ func TestTs(t *testing.T) {
 			}
 			pk := data[o : o+size]
 			ev := map[string]interface{}{"t": tid, "e": "pkt", "size": size, "sync": int(pk[0]), "pid": 0, "pusi": false, "cc": 0, "af": false,
-				"aflen": 0, "rai": false, "pcrf": false, "pcr": 0, "paylen": 0}
+				"aflen": 0, "rai": false, "pcrf": false, "pcr": "0", "paylen": 0}
 			if size < 188 {
 				out.Put(ev)
 				break
@@ -250,7 +251,7 @@ func TestTs(t *testing.T) {
 				}
 				p = 5 + afl
 			}
-			ev["rai"], ev["pcrf"], ev["pcr"] = rai, pcrf, pcr
+			ev["rai"], ev["pcrf"], ev["pcr"] = rai, pcrf, fmt.Sprint(pcr)
 			if p > 188 {
 				p = 188
 			}
@@ -316,8 +317,8 @@ func TestTs(t *testing.T) {
 		for k, a := range done {
 			pid := order[k]
 			d := a.data
-			ev := map[string]interface{}{"t": tid, "e": "pes", "pid": pid, "sid": 0, "peslen": 0, "total": len(d), "pts": -1, "dts": -1, "hasdts": false,
-				"wantpts": 0, "wantdts": 0, "key": false, "intact": false, "prefix": false, "rai": a.rai, "pcrf": a.pcrf, "pcr": a.pcr}
+			ev := map[string]interface{}{"t": tid, "e": "pes", "pid": pid, "sid": 0, "peslen": 0, "total": len(d), "pts": "-1", "dts": "-1", "hasdts": false,
+				"wantpts": "0", "wantdts": "0", "key": false, "intact": false, "prefix": false, "rai": a.rai, "pcrf": a.pcrf, "pcr": fmt.Sprint(a.pcr), "pcr_ok": true}
 			if len(d) >= 9 && d[0] == 0 && d[1] == 0 && d[2] == 1 {
 				ev["sid"] = int(d[3])
 				ev["peslen"] = int(binary.BigEndian.Uint16(d[4:]))
@@ -329,12 +330,12 @@ func TestTs(t *testing.T) {
 					markers := true
 					if flags&0x80 != 0 && len(hd) >= 5 {
 						v, ok := ts33(hd)
-						ev["pts"] = v
+						ev["pts"] = fmt.Sprint(v)
 						markers = markers && ok
 					}
 					if flags&0x40 != 0 && len(hd) >= 10 {
 						v, ok := ts33(hd[5:])
-						ev["dts"], ev["hasdts"] = v, true
+						ev["dts"], ev["hasdts"] = fmt.Sprint(v), true
 						markers = markers && ok
 					}
 					var s *src
@@ -351,7 +352,8 @@ func TestTs(t *testing.T) {
 						}
 					} else {
 						npes++
-						ev["wantpts"], ev["wantdts"], ev["key"] = s.pts, s.dts, s.c.Kind == "key"
+						ev["wantpts"], ev["wantdts"], ev["key"] = fmt.Sprint(s.pts), fmt.Sprint(s.dts), s.c.Kind == "key"
+						ev["pcr_ok"] = s.c.Kind != "key" || a.pcr == s.dts // the PCR of a key frame's first packet is its decode time
 						if pid == 256 {
 							nals := splitAnnexB(es)
 							want := [][]byte{{0x09, 0xf0}}
